@@ -32,7 +32,11 @@ def sp_upd(eng, st, m, k, v):
     return V(DOCS, smt.Store(m.t, kt, d.some(vt)))
 
 
-SPEC_ENV = {"upd": sp_upd}
+def sp_sval(eng, st, o):
+    return V(STR, eng.decls.opt_val(o.t)) if isinstance(o.ty, TOpt) else o
+
+
+SPEC_ENV = {"upd": sp_upd, "sval": sp_sval}
 AXIOMS = {}
 
 
@@ -74,10 +78,17 @@ def build(reg):
             calls={"self.last_obj.add_doc": m_obj_add_doc},
             short=f"FortranAST.{fn}",
             note=f"mechanical slice: the statements of {fn} before `self.last_obj = {param}` (index bookkeeping) are dropped"))
+    reg.add(Contract(
+        "fortls.parsers.internal.base.FortranObj.add_doc", prop="C11", receiver_cls="FortranObj",
+        params={"doc_str": STR}, fields={"self.doc_str": TOpt(STR)},
+        ensures=[("first_block", "implies(old(self.doc_str) is None or old(self.doc_str) == '', self.doc_str == doc_str)"),
+                 ("later_block_appended", "implies(old(self.doc_str) is not None and old(self.doc_str) != '', "
+                                          "self.doc_str == sval(old(self.doc_str)) + '\\n' + doc_str)")],
+        short="FortranObj.add_doc"))
     return reg
 
 
-TARGETS = [f"{FAST}.add_doc", f"{FAST}.add_variable", f"{FAST}.add_scope"]
+TARGETS = [f"{FAST}.add_doc", f"{FAST}.add_variable", f"{FAST}.add_scope", "fortls.parsers.internal.base.FortranObj.add_doc"]
 
 
 def structure_items(repo):
@@ -100,19 +111,108 @@ def structure_items(repo):
                       detail="a block documenting the previous entity ends at the first '!>' line"))
     fs = repo.func(f"{LS}.serve_signature")
     src = ast.unparse(fs.node)
-    ok = ("arg_string, sections = get_paren_level(line)" in src and "arg_string.split(',')" in src
+    ok = ("arg_string, sections = get_paren_level(strip_strings(line, True))" in src and "arg_string.split(',')" in src
           and "param_num = len(arg_strings) - 1" in src and "opt_num = check_optional(arg_strings[-1], params)" in src
           and "param_num = opt_num" in src and "'activeParameter': param_num" in src)
     items.append(Item("C11/LangServer.serve_signature/ensures.active_parameter", "proved" if ok else "refuted", "structural", 0.0,
                       where=fs.where(), mode="table", func=fs.qualname,
-                      detail="arguments are the comma-separated pieces of the list with nested parentheses removed; the active "
+                      detail="arguments are the comma-separated pieces of the list with character literals blanked and nested parentheses removed; the active "
                              "parameter is the one named by `keyword=` in the last piece, else the number of preceding pieces"))
     return items
 
 
+def is_fresh(value, fresh):
+    """the expression builds a new container on every evaluation"""
+    if isinstance(value, (ast.Call, ast.List, ast.Dict, ast.Set, ast.ListComp, ast.DictComp, ast.SetComp)):
+        return not (isinstance(value, ast.Call) and isinstance(value.func, ast.Attribute) and value.func.attr in ("get", "setdefault", "pop"))
+    if isinstance(value, ast.Subscript) and isinstance(value.slice, ast.Slice):
+        return True
+    if isinstance(value, ast.BinOp) and isinstance(value.op, ast.Add):
+        return True
+    if isinstance(value, ast.Name):
+        return value.id in fresh
+    return False
+
+
+def assigned_names(stmts, start=frozenset()):
+    """names that, after the statement list, definitely hold a container created since `start` was taken (If: both
+    branches; loops may run zero times; an assignment from a name keeps that name's status)"""
+    cur = set(start)
+
+    def assign(target, value):
+        if isinstance(target, ast.Name):
+            if value is not None and is_fresh(value, cur):
+                cur.add(target.id)
+            else:
+                cur.discard(target.id)
+        elif isinstance(target, (ast.Tuple, ast.List)):
+            if isinstance(value, (ast.Tuple, ast.List)) and len(value.elts) == len(target.elts):
+                for t, v in zip(target.elts, value.elts):
+                    assign(t, v)
+            else:
+                for t in target.elts:
+                    assign(t, value if isinstance(value, ast.Call) else None)
+    for s_ in stmts:
+        if isinstance(s_, ast.Assign):
+            for t in s_.targets:
+                assign(t, s_.value)
+        elif isinstance(s_, ast.AnnAssign) and s_.value is not None:
+            assign(s_.target, s_.value)
+        elif isinstance(s_, ast.If):
+            cur = assigned_names(s_.body, cur) & assigned_names(s_.orelse, cur)
+        elif isinstance(s_, ast.With):
+            cur = assigned_names(s_.body, cur)
+        elif isinstance(s_, ast.Try):
+            cur = assigned_names(s_.finalbody, cur)
+    return cur
+
+
+def ownership_items(repo):
+    """Every entity built in a loop of FortranFile.parse owns its attribute containers: a list or dict argument of the
+    constructor is (re)assigned inside the loop body on every path before the call.  (Variable.set_external_attr and
+    friends mutate these lists in place, so a shared list would make one entity's attribute appear on the others.)"""
+    fp = repo.func(f"{PARSER}.parse")
+    bad, checked = [], 0
+    CLASSES = {"Variable", "Method"}
+
+    def visit(stmts, loop_assigned, in_loop):
+        """walk a block; loop_assigned: names definitely assigned since the start of the innermost loop body"""
+        cur = set(loop_assigned)
+        for s_ in stmts:
+            for n in ast.walk(s_) if not isinstance(s_, (ast.For, ast.While, ast.If, ast.With, ast.Try)) else []:
+                if isinstance(n, ast.Call) and isinstance(n.func, ast.Name) and n.func.id in CLASSES and in_loop:
+                    for a in list(n.args) + [k.value for k in n.keywords]:
+                        if isinstance(a, ast.Name) and a.id in ("keywords", "keyword_info"):
+                            nonlocal_checked.append(1)
+                            if a.id not in cur:
+                                bad.append({"constructor": n.func.id, "argument": a.id, "where": fp.where(n)})
+            if isinstance(s_, (ast.For, ast.While)):
+                visit(s_.body, set(), True)
+                visit(s_.orelse, cur, in_loop)
+            elif isinstance(s_, ast.If):
+                visit(s_.body, cur, in_loop)
+                visit(s_.orelse, cur, in_loop)
+            elif isinstance(s_, ast.With):
+                visit(s_.body, cur, in_loop)
+            elif isinstance(s_, ast.Try):
+                visit(s_.body, cur, in_loop)
+                for h in s_.handlers:
+                    visit(h.body, cur, in_loop)
+            cur = assigned_names([s_], cur)
+    nonlocal_checked = []
+    visit(fp.node.body, set(), False)
+    checked = len(nonlocal_checked)
+    ok = checked > 0 and not bad
+    return [Item("C11/FortranFile.parse/ownership.per_entity_attribute_containers", "proved" if ok else "refuted", "structural", 0.0,
+                 where=fp.where(), mode="table", func=fp.qualname,
+                 detail=f"{checked} keywords/keyword_info arguments of Variable/Method constructors inside loops: each holds a "
+                        "container created in the loop body on every path before the call, so no two entities share an attribute list",
+                 witness=None if ok else {"shared_arguments": bad[:4], "arguments_checked": checked})]
+
+
 def extra(repo, reg, tier, seed):
     from contracts import c11_gen
-    items = structure_items(repo)
+    items = structure_items(repo) + ownership_items(repo)
     w, n, nd, ns = c11_gen.run(tier, seed)
     it = Item("C11/session/generated_declaration_oracle", "refuted" if w else "bounded-ok", "native-run(bounded)", 0.0, mode="bounded",
               witness=w, confirmed=True if w else None, func=f"{LS}.serve_hover",
@@ -163,6 +263,7 @@ def search(func, tier, seed, obligation=""):
 
 
 TRUSTED = ["entities are integer identities in the VCs; `docs_of` is a ghost map from entity to the documentation it carries"]
-ASSUMPTIONS = ["FortranObj.add_doc stores the text on the receiver (base.py, one assignment)"]
+ASSUMPTIONS = ["in the FortranAST contracts `docs_of[e]` is the block most recently attached to e; that earlier blocks of e are "
+               "kept is FortranObj.add_doc's own contract"]
 RESIDUAL = ("the regex pipeline that turns a declaration into (type, kind, attributes, dimension, value) and the hover renderers "
             "have no specification short of a Fortran declaration grammar: decided on generated declarations only (bounded)")
